@@ -72,11 +72,12 @@ def relayout(Aq, layout):
 def xf_names(m, n, hermitian=False):
     names = [f"cm:{G.mask_name(k)}" for k in range(1, 15)]
     names += ["equalmod", "constant", "rowgraded", "colgraded", "circulant_q", "toeplitz_q", "checker", "lay:F", "lay:T", "lay:view", "lay:ro",
-              "negzero_col", "negated_checker", "nearcol", "depcol1"]
+              "negzero_col", "negated_checker", "nearcol", "depcol1",
+              "allneg", "nonpos", "nearreal", "twodeps", "halfdep_top", "halfdep_bot"]
     if m == n:
         names += [f"sp:{k}" for k in G.SPECIAL_KINDS] + ["hermoff_qdiag"]
     if hermitian:
-        names = [x for x in names if x not in ("rowgraded", "colgraded", "toeplitz_q", "negzero_col", "nearcol", "depcol1", "hermoff_qdiag")] + ["congraded"]
+        names = [x for x in names if x not in ("rowgraded", "colgraded", "toeplitz_q", "negzero_col", "nearcol", "depcol1", "hermoff_qdiag", "allneg", "nonpos", "twodeps", "halfdep_top", "halfdep_bot")] + ["congraded"]
         names = [x for x in names if not x.startswith("sp:") or x[3:] in ("exchange", "ones", "hadamard_like", "path_laplacian")]
     return names
 
@@ -159,6 +160,29 @@ def xf_build(name, m, n, fill, hermitian=False):
         A = base.copy()
         if n >= 2:
             A[:, 1] = O.qmul(A[:, 0], np.broadcast_to(np.array([0.5, -1.0, 0.0, 2.0]), (m, 4)))
+    elif name == "allneg":  # every component of every entry strictly negative
+        A = -(np.abs(base) + 0.0625)
+    elif name == "nonpos":  # no positive component anywhere, some exact zeros
+        A = -np.abs(base)
+        A[0, 0, 1] = 0.0
+        A[m - 1, n - 1] = 0.0
+    elif name == "nearreal":  # real entries plus vector parts of relative size 2^-30 (almost, but not exactly, real)
+        A = base.copy()
+        A[..., 1:] = np.ldexp(base[..., 1:], -30)
+        if hermitian:
+            A = _hermitize(A)
+    elif name == "twodeps":  # two separate groups of right-dependent columns: col1 = col0*q, col3 = col2*i (non-real coefficients)
+        A = base.copy()
+        if n >= 2:
+            A[:, 1] = O.qmul(A[:, 0], np.broadcast_to(np.array([0.5, -1.0, 0.0, 2.0]), (m, 4)))
+        if n >= 4:
+            A[:, 3] = O.qmul(A[:, 2], np.broadcast_to(np.array([0.0, 1.0, 0.0, 0.0]), (m, 4)))
+    elif name in ("halfdep_top", "halfdep_bot"):  # full column rank, but column 1 is a right multiple of column 0 within one half of the rows
+        A = base.copy()
+        if n >= 2 and m >= 2:
+            h = m // 2
+            rows = slice(0, h) if name == "halfdep_top" else slice(m - h, m)
+            A[rows, 1] = O.qmul(A[rows, 0], np.broadcast_to(np.array([0.5, -1.0, 0.0, 2.0]), (A[rows, 0].shape[0], 4)))
     elif name == "hermoff_qdiag":  # Hermitian off-diagonal part, quaternion (non-real) diagonal: NOT Hermitian, a legal general matrix
         A = _hermitize(base)
         for i in range(n):
